@@ -225,6 +225,11 @@ DPooledErrs(x, y) ==
   (IF Len(x) = 0 \/ Len(y) = 0 \/ Len(x) + Len(y) < 3 THEN {"size"} ELSE {}) \cup
   (IF AllEqual(x) /\ AllEqual(y) THEN {"zerovar"} ELSE {})
 
+\* With a single value on one side the pooled statistic exists (n1 + n2 - 2 >= 1), and the
+\* code computes it; an implementation that regards such a sample as undersized is not
+\* forbidden by the statement either.
+DPooledMay(x, y) == IF Min2(Len(x), Len(y)) = 1 THEN {"size"} ELSE {}
+
 DPairedErrs(x, y) ==
   (IF Len(x) # Len(y) THEN {"mismatch"} ELSE {}) \cup
   (IF Min2(Len(x), Len(y)) < 2 THEN {"size"} ELSE {}) \cup
@@ -341,6 +346,8 @@ OPooled(x, y) == OPooledOf(OSum(x), OSum(y))
 \* the error table: an input that must be reported is reported with one of its
 \* admissible errors, every other input is computed
 ErrOK(declErrs, opErr) == IF declErrs = {} THEN opErr = "none" ELSE opErr \in declErrs
+\* ... with errors that are permitted but not required
+ErrOKMay(declErrs, may, opErr) == IF declErrs = {} THEN opErr \in {"none"} \cup may ELSE opErr \in declErrs
 
 -----------------------------------------------------------------------------
 \* tail selection (newTTestResult + TDist.CDF's reflection), on an abstract
@@ -497,10 +504,10 @@ WelchOKw(x, y, a1, a2, b1, b2) ==
              /\ DWelchOf(a2, a1) = Res(r.t2, -r.sgn, r.dof)
 
 PooledOKw(x, y, a1, a2, b1, b2) ==
-     /\ ErrOK(DPooledErrs(x, y), OPooledErrOf(b1, b2))
+     /\ ErrOKMay(DPooledErrs(x, y), DPooledMay(x, y), OPooledErrOf(b1, b2))
      /\ DPooledErrs(x, y) = {} =>
           \A r \in {DPooledOf(a1, a2)} :
-             /\ OPooledOf(b1, b2) = r
+             /\ OPooledErrOf(b1, b2) = "none" => OPooledOf(b1, b2) = r
              /\ RSgn(r.t2) >= 0 /\ (RSgn(r.t2) = 0 <=> r.sgn = 0)
              /\ DPooledOf(a2, a1) = Res(r.t2, -r.sgn, r.dof)
              \* equal sizes: Welch and pooled statistics coincide
